@@ -40,8 +40,12 @@ fn json_of(v: &JsValue) -> String {
 }
 
 /// Rust API: mode 0 = eval then step, 1 = prepare + step, 2 = prepare + step with interleaved reads/collections
-fn rust_entry(mode: u8, src: &str, path: Option<&str>, mods: &BTreeMap<String, String>) -> String {
+fn rust_entry(mode: u8, progs: &[(String, Option<String>)], mods: &BTreeMap<String, String>) -> String {
     let (mut interp, log) = prog::new_interp();
+    let mut segs: Vec<String> = Vec::new();
+    // a session: every program of the list runs in the same interpreter, through the same entry point
+    for (src, path) in progs {
+    let (src, path) = (src.as_str(), path.as_deref());
     let mut t = Tr { ev: vec![] };
     let mp = path.map(|p| ModulePath::new(p.to_string()));
     let mut r = if mode == 0 { interp.eval(src, mp) } else { interp.prepare(src, mp) };
@@ -114,7 +118,9 @@ fn rust_entry(mode: u8, src: &str, path: Option<&str>, mods: &BTreeMap<String, S
     let mut names = interp.get_export_names();
     names.sort();
     let exports: Vec<String> = names.iter().map(|n| format!("{}={}", n, interp.get_export(n).map(|v| json_of(&v)).unwrap_or_default())).collect();
-    format!("{} X:{} L:{}", t.ev.join("|"), exports.join(","), prog::esc(&log.borrow().iter().map(|l| l.splitn(2, ':').nth(1).unwrap_or("").to_string()).collect::<Vec<_>>().join("\u{1}")))
+    segs.push(format!("{} X:{}", t.ev.join("|"), exports.join(",")));
+    }
+    format!("{} L:{}", segs.join(" ;; "), prog::esc(&log.borrow().iter().map(|l| l.splitn(2, ':').nth(1).unwrap_or("").to_string()).collect::<Vec<_>>().join("\u{1}")))
 }
 
 extern "C" fn console_cb(_level: TsRunConsoleLevel, message: *const c_char, len: usize, userdata: *mut c_void) {
@@ -128,10 +134,13 @@ fn cstr(p: *const c_char) -> String {
 }
 
 /// C API: use_run = true → tsrun_run, false → tsrun_step
-fn c_entry(use_run: bool, src: &str, path: Option<&str>, mods: &BTreeMap<String, String>) -> String {
+fn c_entry(use_run: bool, progs: &[(String, Option<String>)], mods: &BTreeMap<String, String>) -> String {
     let ctx = tsrun_new();
     let log: Rc<RefCell<Vec<String>>> = Rc::new(RefCell::new(Vec::new()));
     tsrun_set_console(ctx, Some(console_cb), Rc::as_ptr(&log) as *mut c_void);
+    let mut segs: Vec<String> = Vec::new();
+    for (src, path) in progs {
+    let (src, path) = (src.as_str(), path.as_deref());
     let code = CString::new(src).unwrap_or_default();
     let cpath = path.map(|p| CString::new(p).unwrap_or_default());
     let mut ev: Vec<String> = Vec::new();
@@ -251,9 +260,11 @@ fn c_entry(use_run: bool, src: &str, path: Option<&str>, mods: &BTreeMap<String,
         }
         tsrun_free_strings(names_ptr, count);
     }
+    segs.push(format!("{} X:{}", ev.join("|"), exports.join(",")));
+    }
     let l = prog::esc(&log.borrow().join("\u{1}"));
     tsrun_free(ctx);
-    format!("{} X:{} L:{}", ev.join("|"), exports.join(","), l)
+    format!("{} L:{}", segs.join(" ;; "), l)
 }
 
 /// line: JSON {"src", "path": null|"/m/main", "mods": {path: src}} → five transcripts joined by '\t'
@@ -268,11 +279,17 @@ pub fn line(l: &str) -> String {
         .as_object()
         .map(|m| m.iter().map(|(k, s)| (k.clone(), s.as_str().unwrap_or("").to_string())).collect())
         .unwrap_or_default();
-    let a = rust_entry(0, src, path, &mods);
-    let b = rust_entry(1, src, path, &mods);
-    let c = rust_entry(2, src, path, &mods);
-    let d = c_entry(true, src, path, &mods);
-    let e = c_entry(false, src, path, &mods);
+    // optional "pre": [{"src", "path"}]: programs run before `src` in the same interpreter, through the same entry point
+    let mut progs: Vec<(String, Option<String>)> = v["pre"]
+        .as_array()
+        .map(|a| a.iter().map(|p| (p["src"].as_str().unwrap_or("").to_string(), p["path"].as_str().map(|s| s.to_string()))).collect())
+        .unwrap_or_default();
+    progs.push((src.to_string(), path.map(|s| s.to_string())));
+    let a = rust_entry(0, &progs, &mods);
+    let b = rust_entry(1, &progs, &mods);
+    let c = rust_entry(2, &progs, &mods);
+    let d = c_entry(true, &progs, &mods);
+    let e = c_entry(false, &progs, &mods);
     format!("{}\t{}\t{}\t{}\t{}", a, b, c, d, e)
 }
 
